@@ -138,6 +138,8 @@ pub struct MockDatagram {
     pub log: WireLog,
     /// when set, `send` fails with this error kind
     pub fail_send: Arc<Mutex<bool>>,
+    /// `send` takes this long (virtual ms): other tasks run while a message is "being written"
+    pub send_delay_ms: u64,
 }
 
 impl fmt::Debug for MockDatagram {
@@ -181,8 +183,34 @@ impl Transport for MockDatagram {
             dest: target,
             bytes: Bytes::copy_from_slice(message),
         });
+        if self.send_delay_ms > 0 {
+            tokio::time::sleep(Duration::from_millis(self.send_delay_ms)).await;
+        }
         Ok(())
     }
+}
+
+/// like `mock_datagram`, but every `send` suspends for `delay_ms` of virtual time after the bytes went out
+pub fn mock_datagram_slow(
+    log: &WireLog,
+    name: &'static str,
+    secure: bool,
+    reliable: bool,
+    bound: &str,
+    delay_ms: u64,
+) -> (TpHandle, u32) {
+    let id = (NEXT_TP.fetch_add(1, Ordering::Relaxed) % 0xfffe) as u32 + 1;
+    let tp = MockDatagram {
+        id,
+        name,
+        secure,
+        reliable,
+        bound: bound.parse().expect("bound addr"),
+        log: log.clone(),
+        fail_send: Default::default(),
+        send_delay_ms: delay_ms,
+    };
+    (TpHandle::new(tp), id)
 }
 
 pub fn mock_datagram(
@@ -202,6 +230,7 @@ pub fn mock_datagram(
         bound: bound.parse().expect("bound addr"),
         log: log.clone(),
         fail_send: Default::default(),
+        send_delay_ms: 0,
     };
     (TpHandle::new(tp), id)
 }
